@@ -240,3 +240,10 @@ package tmconsensus
 //@ func DropDuplicateFeedbackMapper.HandlePrecommitProofs
 //@   property C09
 //@   ensures defined-feedback: validFeedback(result)
+
+// ---- C07: validator set equality compares the two hashes and the validator lists ----
+//@ func ValidatorSet.Equal
+//@   property C07
+//@   ensures equal-means-same-hashes: result ==> bytes(v.PubKeyHash) == bytes(other.PubKeyHash) && bytes(v.VotePowerHash) == bytes(other.VotePowerHash) &&
+//@       len(v.Validators) == len(other.Validators)
+//@   modifies nothing
